@@ -20,7 +20,7 @@ RULE = (
     "non-trivial = >=2 plates of unequal sizes or >=4 thetas"
 )
 ASSUMPTIONS = ["means bounded by a few hundred so squares stay finite", "scalar reference uses math.fsum and a stable log-sum-exp"]
-REQUIRED = {"scorer_runs_on_overlapping_views": {"quick": 10, "thorough": 150}, "production_size_plates": {"quick": 40, "thorough": 800}, "plate_scores_vs_reference": {"quick": 10000, "thorough": 200000}, "metamorphic_checks": {"quick": 10000, "thorough": 200000}, "scorer_entry_runs": {"quick": 800, "thorough": 15000}, "all_zero_distance_cases": {"quick": 10, "thorough": 200}}
+REQUIRED = {"cli_end_to_end_runs": {"quick": 5, "thorough": 50}, "scorer_runs_on_overlapping_views": {"quick": 10, "thorough": 150}, "production_size_plates": {"quick": 40, "thorough": 800}, "plate_scores_vs_reference": {"quick": 10000, "thorough": 200000}, "metamorphic_checks": {"quick": 10000, "thorough": 200000}, "scorer_entry_runs": {"quick": 800, "thorough": 15000}, "all_zero_distance_cases": {"quick": 10, "thorough": 200}}
 N_CFG = {"quick": 960, "thorough": 16000}
 TOL = 1e-9
 
@@ -32,6 +32,65 @@ def same(a, b, tol=TOL):
     if not (np.isfinite(a) and np.isfinite(b)):
         return False
     return abs(a - b) <= tol * (1.0 + abs(b))
+
+
+def cli_end_to_end(rec, tier, rng):
+    """The scorer as the pipeline reaches it: calculate_distance_matrix, then calculate_scores with GaussianDBALScorer,
+    the posterior samples given as several chain files whose names are NOT in alphabetical order. Each plate's score
+    must be the direct estimator over the samples in command-line order and their pairwise MSE distances."""
+    import os
+    from batchie.cli import calculate_distance_matrix as cli_d, calculate_scores as cli_s
+    from batchie.core import ThetaHolder
+    from batchie.data import Screen, ExperimentSpace
+    from batchie.distance.mse import MSEDistance
+    from batchie.scoring.main import ChunkedScoresHolder
+
+    with kit.scratch_dir("vf-c05-") as tmp:
+        for ci in range({"quick": 1, "thorough": 5}[tier]):
+            screen = Screen(**gen.realistic_screen_kwargs(rng, n_rows=(8, 24), n_plates=(2, 5), observed="none"))
+            sp = ExperimentSpace.from_screen(screen)
+            labels = [str(x) for x in rng.permutation(["run_a", "run_b", "run_c", "chain_10", "chain_2"])[: int(rng.integers(2, 5))]]
+            if labels == sorted(labels):
+                labels = labels[::-1]
+            files, thetas = [], []
+            for lab in labels:
+                sz = int(rng.integers(1, 4))
+                h = ThetaHolder(n_thetas=sz)
+                for _ in range(sz):
+                    th = gen.random_sparse_combo_theta(rng, sp.n_unique_samples, max(1, sp.n_unique_treatments), scale=1.0)
+                    h.add_theta(th)
+                    thetas.append(th)
+                fn = os.path.join(tmp, lab + ".h5")
+                h.save_h5(fn)
+                files.append(fn)
+            if len(thetas) < 3:
+                continue
+            f_s, f_d, f_o = (os.path.join(tmp, x) for x in ("screen.h5", "dist.h5", "scores.h5"))
+            screen.save_h5(f_s)
+            w = {"via": "cli", "theta_files": labels, "n_thetas": len(thetas)}
+            rec.case(("cli-e2e", tuple(labels), len(thetas), kit.array_hash(screen.observations)), nontrivial=True)
+            try:
+                kit.run_cli(cli_d.main, ["--data", f_s, "--thetas"] + files + ["--distance-metric", "MSEDistance", "--n-chunks", 1, "--chunk-index", 0, "--output", f_d])
+                kit.run_cli(cli_s.main, ["--data", f_s, "--thetas"] + files + ["--distance-matrix", f_d, "--scorer", "GaussianDBALScorer", "--output", f_o, "--seed", 0])
+                got = ChunkedScoresHolder.load_h5(f_o)
+            except Exception as e:
+                rec.violation("C05/scorer/raises", "distance + scores command lines raised %r\n%s" % (e, kit.tb()), w)
+                continue
+            loaded = Screen.load_h5(f_s)
+            metric = MSEDistance()
+            T = len(thetas)
+            d = np.zeros((T, T))
+            for i in range(T):
+                for j in range(i):
+                    d[i, j] = d[j, i] = metric.distance(thetas[i].predict_viability(loaded), thetas[j].predict_viability(loaded))
+            rec.count("cli_end_to_end_runs")
+            for pid, sc in zip(got.plate_ids.tolist(), got.scores.tolist()):
+                pl = loaded.get_plate(int(pid))
+                m = [np.asarray(th.predict_conditional_mean(pl), dtype=float).tolist() for th in thetas]
+                v = [np.asarray(th.predict_conditional_variance(pl), dtype=float).tolist() for th in thetas]
+                ref = dbal_ref.plate_score(m, v, d.tolist())
+                rec.count("plate_scores_vs_reference")
+                rec.check(same(float(sc), ref, 1e-8), "C05/scorer/differs-from-direct-estimator", lambda: "command lines with --thetas %r: plate %d scored %r, the direct estimator over the samples in that order gives %r" % (labels, int(pid), float(sc), ref), w)
 
 
 def gen_config(rng):
@@ -256,6 +315,8 @@ def run_shard(rec, tier, seed, shard, nshards):
                         rec.check(same(got[pid], base.get(pid, float("nan")), 1e-10), "C05/metamorphic/depends-on-batch-size", lambda: "plate id %d: %r with max_chunk=%d, %r with max_chunk=1" % (pid, got[pid], mc, base.get(pid)), w)
         if ci == 0 and shard == 0 and het is not None:
             rec.sample({"n_thetas": T, "plate_sizes": sizes, "heteroscedastic_scores": [float(x) for x in het], "reference": [float(x) for x in ref_het]})
+
+    cli_end_to_end(rec, tier, rng)
 
     # ---------------- real posterior samples through the scorer (homoscedastic in practice)
     for _ in range(6 if tier == "quick" else 40):
